@@ -398,10 +398,11 @@ func verifHashAgree(a, b Object) bool {
 
 // List.GetSlice: a fresh list holding exactly the elements of the resolved range, in order; the original is not touched.
 //@ func (*List).GetSlice
-//@ props C16
+//@ props C16 C01
 //@ safety
 //@ requires ls != nil
 //@ modifies nothing
+//@ ensures[C01.slice.independent] result1 == nil ==> typeof(result0) == *List && ref(result0) != nil && fresh(result0) && fresh(result0.(*List).items)
 //@ ensures[C16.getslice.copy] result1 == nil ==> typeof(result0) == *List && ref(result0) != nil && fresh(result0) && fresh(result0.(*List).items) && exists(a, 0, len(ls.items) + 1, exists(b, a, len(ls.items) + 1, len(result0.(*List).items) == b - a && forall(k, 0, b - a, result0.(*List).items[k] == ls.items[a + k])))
 //@ ensures[C16.getslice.err] result1 != nil ==> result0 == nil
 
@@ -438,3 +439,15 @@ func verifHashAgree(a, b Object) bool {
 //@ external unicode/utf8.RuneCountInString
 //@ modifies nothing
 //@ ensures result == runecount(s)
+
+// ---- C16 / C01: a + b on lists builds a new list --------------------------------------------------------------------
+// The sum has its own backing array (it never shares the left operand's spare capacity), holds the elements of the left
+// operand followed by those of the right one, and neither operand is written.
+//@ func (*List).runOperationList
+//@ props C16 C01
+//@ safety
+//@ requires ls != nil && right != nil
+//@ modifies nothing
+//@ ensures[C16.list.add] opType == op.Add ==> typeof(result) == *List && ref(result) != nil && fresh(result) && fresh(result.(*List).items) && len(result.(*List).items) == len(ls.items) + len(right.items) && forall(k, 0, len(ls.items), result.(*List).items[k] == ls.items[k]) && forall(k, 0, len(right.items), result.(*List).items[len(ls.items) + k] == right.items[k])
+//@ ensures[C01.list.add.independent] opType == op.Add ==> typeof(result) == *List && ref(result) != nil && fresh(result.(*List).items)
+//@ ensures[C16.list.add.other] opType != op.Add ==> typeof(result) == *Error
